@@ -93,6 +93,7 @@ type c06Parked struct {
 type c06Delivery struct {
 	at  time.Time
 	fps map[model.Fingerprint]bool
+	upd map[model.Fingerprint]time.Time // update time of the listed (firing) version
 }
 
 func execC06(sc c06Scenario) (res pbt.Result) {
@@ -112,10 +113,11 @@ func execC06(sc c06Scenario) (res pbt.Result) {
 		var dmtx sync.Mutex
 		var deliveries []c06Delivery
 		stage := notify.StageFunc(func(ctx context.Context, _ *slog.Logger, as ...*alert.Alert) (context.Context, []*alert.Alert, error) {
-			d := c06Delivery{at: time.Now(), fps: map[model.Fingerprint]bool{}}
+			d := c06Delivery{at: time.Now(), fps: map[model.Fingerprint]bool{}, upd: map[model.Fingerprint]time.Time{}}
 			for _, a := range as {
 				if !a.Resolved() {
 					d.fps[a.Fingerprint()] = true
+					d.upd[a.Fingerprint()] = a.UpdatedAt
 				}
 			}
 			dmtx.Lock()
@@ -291,6 +293,24 @@ func execC06(sc c06Scenario) (res pbt.Result) {
 				}
 			}
 		}
+		// a notification made after everything had settled must not list as firing an alert whose end (per the
+		// provider, which holds the last submitted version) lies more than one group_interval back: only a group
+		// that no longer receives the alert's updates (an orphan outside the map) can do that
+		dmtx.Lock()
+		for _, d := range deliveries {
+			if !d.at.After(now) {
+				continue
+			}
+			for fp := range d.fps {
+				if a, err := alerts.Get(fp); err == nil && a.EndsAt.Add(time.Duration(sc.GroupInterval+1)*time.Second).Before(d.at) {
+					// facts: the listed version is an older submission (not a corrupted one), and the group that
+					// holds it is a regular member of the dispatcher's map (listed by Groups() after settling)
+					res.Add(pbt.V("stale-firing-notification", "a notification at %s lists %v as firing although the last submitted version ended at %s (more than group_interval earlier) and every goroutine had been released by %s", d.at.Format("15:04:05.000"), a.Labels, a.EndsAt.Format("15:04:05.000"), drainAt.Format("15:04:05.000")).
+						With("older_version_listed", d.upd[fp].Before(a.UpdatedAt)).With("holding_group_listed", len(where[fp]) > 0))
+				}
+			}
+		}
+		dmtx.Unlock()
 		disp.Stop()
 		synctest.Wait()
 	})
@@ -311,6 +331,17 @@ func TestC06Schedule(t *testing.T) {
 	pbt.Run(t, pbt.Spec[c06Scenario]{
 		Property: "C06", Name: "C06Schedule",
 		Rule: "real provider + dispatcher (one route, group_by [a]) in a bubble; alerts of one (or a second) group are put without waiting, resolve and re-fire; the dispatcher's goroutines park at the verif hook points group.loaded / group.created / maint.destroyed / maint.deleted / flush.notified (a generated subset) and a generated, shrinkable list of release choices and time advances decides the interleaving of concurrent group creators, the maintenance sweep and flush completion. After draining and one group_wait+group_interval+maintenance of virtual time: every firing alert of the provider is held by exactly one group with its group label, no two live groups share labels, and it was notified; after all alerts ended and were swept no group remains and the group gauge is 0. Non-trivial: at some release point two goroutines were inside groupAlert for creation at once.",
-		Gen:  genC06, Exec: execC06,
+		Gen:  genC06,
+		Exec: func(sc c06Scenario) pbt.Result {
+			res := execC06(sc)
+			kept := res.Violations[:0]
+			for _, v := range res.Violations {
+				if v.Kind != "stale-firing-notification" { // judged by C14Schedule / C04Schedule
+					kept = append(kept, v)
+				}
+			}
+			res.Violations = kept
+			return res
+		},
 	})
 }
